@@ -108,6 +108,8 @@ def case_failures(seed_, with_region):
             pr, pc = rnd.choice(sorted(interior))
             region = Region(maxdepth=12)
             ra, dec = w.wcs_pix2world(pc, pr, 0)
+            if not (np.isfinite(ra) and np.isfinite(dec)):
+                ra, dec = w.wcs.crval            # the chosen pixel is off the sky: centre the small region on the reference position
             region.add_circles(np.radians(float(ra)), np.radians(float(dec)), np.radians(0.08))
         else:
             region = Region(maxdepth=8)
